@@ -218,8 +218,42 @@ class Case:
         return out
 
 
+class WrapCase:
+    """a computed tensor handed to the Tensor / nn.Parameter constructor (the "scaled random initialisation" idiom
+    nn.Parameter(randn(...) * 0.1)) is an operand like any other: programs built on the wrapper can be differentiated and the
+    wrapper receives the derivative of what was built on it"""
+    prop = PROP
+
+    def __init__(self, spec):
+        self.spec = spec
+        self.sig = "wrap:%s" % spec["wrap"]
+
+    def run(self, env):
+        import synapgrad
+        from synapgrad import nn
+        out = E.Outcome()
+        Tn = T()
+        w = Tn(env.arr("w", (2, 2)), requires_grad=True)
+        x = Tn(env.arr("x", (1, 2)))
+        g = env.arr("g", (1, 2), lo=-2, hi=2)
+        inner = w * 0.5
+        p = nn.Parameter(inner) if self.spec["wrap"] == "Parameter" else synapgrad.Tensor(inner)
+        out.fact("the wrapper of a tensor that requires grad requires grad", bool(p.requires_grad))
+        y = x @ p
+        y.backward(Tn(g))
+        gp = gradof(p)
+        out.fact("the wrapper received a gradient", gp is not None)
+        if gp is not None:
+            exp = np.empty((2, 2), dtype=object)
+            for i in range(2):
+                for j in range(2):
+                    exp[i, j] = x.data[0, i] * g[0, j]
+            out.pair("grad(wrapper) = x^T g", gp, exp if env.sym else np.array(exp, dtype=np.float64))
+        return out
+
+
 def enumerate_specs(tier, seed=0):
-    specs = []
+    specs = [{"wrap": "Parameter"}, {"wrap": "Tensor"}]
     rng = random.Random(1234 + seed)
 
     def add(progs, n_leaves, masks, frac=1.0):
@@ -252,13 +286,15 @@ def enumerate_specs(tier, seed=0):
         for m in masks2:
             specs.append({"nodes": p, "req": list(m)})
     # the same root differentiated twice with different upstream gradients (a sample of the programs above)
-    base = [sp_ for sp_ in specs if all(sp_["req"])]
+    base = [sp_ for sp_ in specs if "req" in sp_ and all(sp_["req"])]
     for sp_ in base[:: (12 if tier == "quick" else 6)]:
         specs.append(dict(sp_, twice=True))
     return specs
 
 
 def build(spec):
+    if "wrap" in spec:
+        return WrapCase(spec)
     return Case(spec)
 
 
